@@ -12,7 +12,7 @@ CFG = {
                    "Scenario 'enumerate' additionally enumerates schedules of <=3 actors x <=3 operations with ALL gates armed: every schedule is re-run from the start with a forced list of choices "
                    "('which parked goroutine next'), remaining choices = first of the parked list (rotated so that the goroutine that ran last continues until it yields at a harness gate, then round-robin), "
                    "explored breadth-first by the number of deviations from that default schedule"),
-    "level_note": ("trusted: the holder-count model, the gate inserter (tools/gaterw) and simcore's cooperative locks; 'enumerate' is exhaustive only at gate granularity (not machine instructions), only for the "
+    "level_note": ("scenario node-balance checks "never leaks" on a real measure or stream node: writes in the last hour of a day (rotation pre-creates the next, shard-less segment), ordered/unordered queries with ranges reaching beyond now, then ttl+4 quiet days with a retention run each, after which every segment directory lying more than a day before now-TTL must be gone (a leaked reference defers deletion forever); trusted: the holder-count model, the gate inserter (tools/gaterw) and simcore's cooperative locks; 'enumerate' is exhaustive only at gate granularity (not machine instructions), only for the "
                    "actor programs sampled by the seed, and only up to the per-seed budget of 300 schedules: all schedules with 0 and 1 deviations from the default schedule are covered (probe "
                    "reach.enum_level1_complete), those with 2 deviations only for small programs (reach.enum_level2_complete), deeper levels are cut by the budget (reach.enum_budget_exhausted; "
                    "reach.enum_all_schedules_complete counts the seeds whose whole schedule tree fitted); in 'enumerate' the reopen+retention epilogue runs for every 4th schedule only; "
@@ -25,7 +25,7 @@ CFG = {
              "DeleteOldestSegment, TakeFileSnapshot, metrics collect, Tick, clock advance (10-minute ticker / idle timeout / next 00:05 cron), Close}; the tape then picks which parked goroutine proceeds at "
              "every quiescent point (<=100 steps). 'enumerate': 2-3 actors x 1-3 operations, all gates armed, up to 300 schedules per seed. Non-trivial = at least two actors were inside the engine at the "
              "same time on the same database; distinct = canonical event-log digests"),
-    "expected_probes": ["reach.cas_fast_path", "reach.slow_path_acquire", "reach.acquire_found_holder_after_lock", "reach.reopen_closed_segment", "reach.acquire_refused_closed",
+    "expected_probes": ["reach.clock_in_rotation_window", "reach.query_reaches_beyond_now", "reach.all_expired_segments_removed", "reach.cas_fast_path", "reach.slow_path_acquire", "reach.acquire_found_holder_after_lock", "reach.reopen_closed_segment", "reach.acquire_refused_closed",
                         "reach.idle_close_raced_acquire", "reach.deferred_delete_at_last_decref", "reach.peek_path_unpinned", "reach.peek_filtered_expired_segment", "reach.idle_close_closed_segment",
                         "reach.retention_deleted_segment", "reach.forced_delete", "reach.lock_wait_parked", "reach.schedules_enumerated", "reach.enum_level1_complete",
                         "reach.final_idle_close_checked", "reach.final_retention_checked", "reach.close_checked"],
